@@ -419,7 +419,7 @@ def _attr(s, rng=None):
 
 def tigerxml_encode(treebank, rng=None, sid_format='s%d', encoding='utf-8',
                     with_vroot=True, secedges=False, omit_optional=False,
-                    head=True):
+                    head=True, headless=()):
     """TIGER-XML.  with rng: attribute order, <nt> order and edge order are
     shuffled, ids get a per-corpus prefix.  The root constituent is written
     as a <nt> like any other when with_vroot (label from the spec), otherwise
@@ -449,14 +449,20 @@ def tigerxml_encode(treebank, rng=None, sid_format='s%d', encoding='utf-8',
             for t in toks_:
                 ids[id(t)] = '%s%d' % (pre, t.num)
         cons = [n for n in root.nodes() if n.children]
-        if not with_vroot:
+        drop_root = not with_vroot
+        if spec['sid'] in headless:
+            # an ill-formed sentence: the root node is left out although
+            # it has several children (several nodes without a parent)
+            drop_root = True
+            cons = [n for n in cons if n is not root]
+        elif not with_vroot:
             if len(root.children) != 1 or not root.children[0].children:
                 raise ValueError('cannot drop the root of this tree')
             cons = [n for n in cons if n is not root]
         numbered = sorted(cons, key=lambda n: (n.height(), n.first()))
         for i, n in enumerate(numbered):
             ids[id(n)] = '%s%d' % (pre, 500 + i)
-        top = root if with_vroot else root.children[0]
+        top = root if not drop_root else root.children[0]
         out.append('<s id=%s>' % _attr(sid))
         out.append('<graph root=%s>' % _attr(ids[id(top)]))
         out.append('  <terminals>')
